@@ -562,7 +562,7 @@ def r2_r3_tokenizers(rep, src):
         def mk(it, args, kw):
             return (kind, args[0] if args else None)
         return mk
-    hp = H.Heap(src.mod(TK), hooks={'Deb822CommentToken': tok('comment'), 'Deb822ValueContinuationToken': tok('cont'), 'Deb822NewlineAfterValueToken': tok('newline'),
+    hp = H.Heap(src.mod(TK), extra_modules=[src.mod('_deb822_repro._util')], hooks={'Deb822CommentToken': tok('comment'), 'Deb822ValueContinuationToken': tok('cont'), 'Deb822NewlineAfterValueToken': tok('newline'),
                                     'sys.intern': lambda it, a, k: a[0], 'FUNC': lambda it, a, k: [('content', a[0])]})
     hp.symbolic_strings = True
     itp = H.Interp(hp)
@@ -637,7 +637,7 @@ def r4_writeback(rep, src):
             lines = it.seq(args[0])
             log.append(('parse', ''.join(str(x) for x in lines)))
             return it.h.alloc('Deb822FileElement', {'err': perr}, name='@reparsed')
-        heap = H.Heap(mod, field_alias={'_previous_node': 'previous_node'}, extra_modules=[src.mod('_util'), src.mod(TK)], hooks={
+        heap = H.Heap(mod, field_alias={'_previous_node': 'previous_node'}, extra_modules=[src.mod('_util'), src.mod(TK), src.mod('_deb822_repro._util')], hooks={
             'parse_deb822_file': parse,
             '.find_first_error_element': lambda it, a, k: it.h.alloc('Deb822ErrorElement', {}, name='@error') if it.h.objs[a[0].name]['err'] else None,
             '.get_kvpair_element': lambda it, a, k: it.h.newkv,
@@ -755,12 +755,7 @@ def r7_opening_a_view(rep, src):
         linevar = loop.target.id
     else:
         raise AnalysisError('%s: loop target not understood' % fac.site)
-    if not (isinstance(itx, ast.Call) and isinstance(itx.func, ast.Attribute) and itx.func.attr == 'splitlines' and norm(itx.func.value) == vparam
-            and ((len(itx.args) == 1 and isinstance(itx.args[0], ast.Constant) and itx.args[0].value is True)
-                 or any(k.arg == 'keepends' and isinstance(k.value, ast.Constant) and k.value.value is True for k in itx.keywords))):
-        rep.fail('C11.R7', fac.site, 'the value is cut into physical lines that keep their line ends', 'the loop iterates over %s, not over %s.splitlines(keepends=True)'
-                 % (norm(loop.iter)[:60], vparam), where=fac.where)
-        return
+    # (what the loop iterates over is evaluated per scenario below: it must be the lines of the value, cut at newlines only, ends kept)
     pre = impl.body[:impl.body.index(loop)]
     mod = src.mod(TK)
     NONL = r'[^\n]'
@@ -768,15 +763,21 @@ def r7_opening_a_view(rep, src):
     def run(lines_of, at):
         """lines_of(at) -> (whole value text, [line ...]); -> per line ('raise', exc, lineno) | ('tokens', [(class, text)])"""
         value, lines = lines_of(at)
-        heap = H.Heap(mod, hooks={'sys.intern': lambda it_, a, k: a[0], 'INNER': lambda it_, a, k: it_.h.new_list([it_.h.alloc('INNER', {'text': a[0]})])})
+        heap = H.Heap(mod, extra_modules=[src.mod('_deb822_repro._util')], hooks={'sys.intern': lambda it_, a, k: a[0], 'INNER': lambda it_, a, k: it_.h.new_list([it_.h.alloc('INNER', {'text': a[0]})])})
         heap.symbolic_strings = True
         it = H.Interp(heap)
         env = {vparam: value, inner_name: ('hook', 'INNER'), '#yields': []}
         out = []
         try:
             it.run(pre, env, None)
+            cut0 = it.ev(itx, env, None)
+            if isinstance(cut0, tuple) and cut0 and cut0[0] == 'linesof':
+                return [('cut', 'the lines of str.splitlines(), which also ends a line at VT, FF, FS, GS, RS, U+0085, U+2028, U+2029 and a lone CR', [repr(x_) for x_ in lines])]
+            cut = it.seq(cut0)
         except H.Raised as x:
             return [('raise', x.exc, x.lineno)]
+        if len(cut) != len(lines) or not all(symstr.lift(a_).same(symstr.lift(b_)) for a_, b_ in zip(cut, lines)):
+            return [('cut', [repr(x_) for x_ in cut], [repr(x_) for x_ in lines])]
         for no, line in enumerate(lines):
             env['#yields'] = []
             env[linevar] = line
@@ -823,6 +824,9 @@ def r7_opening_a_view(rep, src):
             n += 1
             wit = {k: l_.witness() for k, l_ in langs.items()}
             shown = ''.join(p_ if isinstance(p_, str) else wit.get(getattr(p_, 'name', ''), '?') for p_ in symstr.lift(lines[idx]).parts)
+            if res and res[0][0] == 'cut':
+                bad = bad or '%s, e.g. %r: the value is cut into the lines %s instead of %s (only a newline ends a line of a field value)' % (label, shown, res[0][1], res[0][2])
+                continue
             if len(res) <= idx or res[idx][0] == 'raise':
                 r_ = res[min(idx, len(res) - 1)]
                 bad = bad or '%s, e.g. %r: raises %s at line %d' % (label, shown, r_[1], r_[2])
@@ -961,6 +965,10 @@ def check(src, rep, tier):
     rep.guard('C11.R3', r2_r3_tokenizers, src)
     rep.guard('C11.R4', r4_writeback, src)
     rep.guard('C11.R6', r6_views_are_fresh, src)
+    rep.need('C11.R9', 1)
+    from . import common
+    rep.guard('C11.R9', common.check_line_primitive, src, 'C11.R9', [PM + ':%s._update_field' % CLS],
+              'an edited field whose text contains such a character is re-parsed as more lines than it has')
     rep.need('C11.R8', 2)
     rep.guard('C11.R8', r8_memo_slots, src)
     rep.need('C11.R7', 15)
